@@ -1,8 +1,8 @@
 (* C16 - threaded logging: the property theorems.  Statements only; each is closed by `exact`.
    Models: LogThrModel.v (part A: control histories run_ctl; part B: interleavings exec).
-   `true' = the repaired code (fixes/C16-1..4), `false' = the code as found. *)
+   `true' = the repaired code (fixes/C16-1..5), `false' = the code as found. *)
 From Coq Require Import ZArith List Bool Sorted.
-Require Import Verif.gen.Consts_logthr Verif.LogThrModel Verif.LogThrProofs Verif.LogThrProofs2 Verif.LogThrProofs3.
+Require Import Verif.gen.Consts_logthr Verif.LogThrModel Verif.LogThrProofs Verif.LogThrProofs2 Verif.LogThrProofs3 Verif.LogThrProofs4 Verif.LogThrProofs5.
 Import ListNotations.
 Local Open Scope Z_scope.
 
@@ -121,15 +121,49 @@ Theorem C16_fifo_any_code : forall b mprog progs sched, let s := exec b sched (c
 Proof. exact conc_fifo_any_code. Qed.
 Print Assumptions C16_fifo_any_code.
 
-(* FINDING (not repaired, proposed as known finding C16-in-logger-global): with two producers a log call made while the
-   other producer is inside qb_log_real_va_ is turned away by the process-wide in_logger guard: it never reaches
-   qb_log_thread_log_post, is not written and not counted as lost.  C16_order_once speaks about the records that
-   reached qb_log_thread_log_post. *)
-Theorem C16_in_logger_guard_loss : let s := exec true guard_sched (cinit [MStop] guard_progs) in
+(* the code as found: with two producers a log call made while the other producer is inside qb_log_real_va_ is turned
+   away by the process-wide in_logger guard: it never reaches qb_log_thread_log_post, is not written and not counted as
+   lost (repaired by fixes/C16-5: the guard is per thread; see C16_every_call_accounted) *)
+Theorem C16_in_logger_guard_loss : let s := exec false guard_sched (cinit [MStop] guard_progs) in
   stopped (c_gh s) = true /\ c_error s = false /\ length (guarded (c_gh s)) = 1%nat /\
   length (plog (c_gh s)) = 1%nat /\ length (written (c_gh s)) = 1%nat /\ reported (c_gh s) = [] /\ drop (c_sh s) = 0.
 Proof. exact conc_guard_loss. Qed.
 Print Assumptions C16_in_logger_guard_loss.
+
+(* with the per-thread guard (fixes/C16-5), for any number of producers and ALL schedules: no log call is turned away,
+   and every log call begun by producer i is in the critical-section log (accepted, or dropped and then reported, see
+   C16_order_once), or was made while the target was not enabled, or is the one about to take the lock *)
+Theorem C16_every_call_accounted : forall mprog progs sched, let s := exec true sched (cinit mprog progs) in
+  guarded (c_gh s) = [] /\
+  forall i p, nth_error (c_prods s) i = Some p ->
+    p_seq p = (count_tid i (plog_msgs (c_gh s)) + count_tid i (skipped (c_gh s)) + in_lock p)%nat.
+Proof. exact conc_calls_accounted. Qed.
+Print Assumptions C16_every_call_accounted.
+
+(* deadlock freedom as an invariant: in every reachable state some thread can take a step, or everything has finished
+   (all producers done, control program finished, and the worker has exited - or, when the control program never
+   calls qb_log_fini, idles in sem_wait with semaphore 0 and the queue empty).  So no reachable state has all
+   threads blocked while a record is queued, and qb_log_fini is never stuck in its join.  (Termination under a fair
+   scheduler is liveness and is not stated.) *)
+Theorem C16_no_deadlock : forall mprog progs sched, let s := exec true sched (cinit mprog progs) in
+  (exists tid, cstep true s tid <> None) \/ quiescent s.
+Proof. exact conc_no_deadlock. Qed.
+Print Assumptions C16_no_deadlock.
+
+Theorem C16_quiescent_queue_empty : forall mprog progs sched, let s := exec true sched (cinit mprog progs) in
+  quiescent s -> q (c_sh s) = [].
+Proof. exact quiescent_queue_empty. Qed.
+Print Assumptions C16_quiescent_queue_empty.
+
+(* "written exactly once" in full: when the control program never disables or closes the target (enabling, other
+   control calls, join + qb_log_fini are allowed), every record the worker takes is handed to the target's logger, and
+   when qb_log_fini has returned the sequence written to the target IS the sequence of accepted records *)
+Theorem C16_written_all : forall mprog progs sched, forallb nondis mprog = true ->
+  let s := exec true sched (cinit mprog progs) in
+  written (c_gh s) = popped (c_gh s) /\
+  (stopped (c_gh s) = true -> written (c_gh s) = accepted (c_gh s)).
+Proof. exact conc_written_all. Qed.
+Print Assumptions C16_written_all.
 
 (* non-vacuity: a schedule on which the backlog limit is hit, a drop is reported and fini completes
    (message lengths derived from the regenerated constants, so that a different limit re-checks) *)
